@@ -751,3 +751,5 @@ def _run(world: World, plan):
            stop_state.get('trigger_event'), stop_state.get('state_at_stop'), tuple(pend), call.outcome(),
            len(plan.get('status', [])), plan.get('mode')]
     return common.finish(world, nontrivial, sig)
+
+INFO['rule'] += " Round-5 additions: the uploader's file connection is under way when the stop lands and arrives with its ticket afterwards (late_f; must not be kept); the downloader of a user-aborted upload is blocked and unblocked inside the window (block_flap)."
